@@ -383,7 +383,7 @@ theorem C07_distinct (f : AggFn) (xs : List Value) :
   have h := distinct_fold f xs (Acc.new f true) (by cases f <;> rfl) (by cases f <;> rfl)
     (by cases f <;> simp [Acc.new, Acc.seen]) (by cases f <;> simp [Acc.new, Acc.seen, nd])
   obtain ⟨h1, h2, h3⟩ := h
-  refine ⟨(accAll f true xs).seen.reverse, (by simpa [List.Nodup, List.pairwise_reverse, ne_comm] using h1), ?_, ?_⟩
+  refine ⟨(accAll f true xs).seen.reverse, (by simpa [List.Nodup, List.pairwise_reverse, ne_comm, accAll] using h1), ?_, ?_⟩
   · intro v
     rw [List.mem_reverse]
     have := h2 v
